@@ -2,8 +2,10 @@
    MDS of them.  Statements only; proofs live in Dijkstra_Proof*.v. *)
 From Coq Require Import List ZArith Bool Arith Qcanon.
 From TK Require Import Mat_Sums Mat_Core Mat_Qc.
-From TK Require Import Dijkstra_Model Dijkstra_Spec Dijkstra_IsoModel
-     Dijkstra_Proof_Base Dijkstra_Proof_Spec Dijkstra_Proof Dijkstra_Proof_Iso.
+From TK Require Import Dijkstra_Model Dijkstra_Spec Dijkstra_IsoModel Dijkstra_IsoExec Dijkstra_Sched_Model
+     Dijkstra_Proof_Base Dijkstra_Proof_Spec Dijkstra_Proof Dijkstra_Proof_Iso Dijkstra_Proof_IsoExec
+     Dijkstra_Proof_Sched Dijkstra_IsoEmbed Dijkstra_FibC_Model Dijkstra_Proof_FibC.
+From Coq Require Import Permutation.
 Import ListNotations.
 Local Open Scope Z_scope.
 
@@ -26,6 +28,27 @@ Theorem dijkstra_fib_correct : forall nbrs w N K pick,
     full_matrix FIB nbrs w pick N = DOk (sp_matrix nbrs w N).
 Proof. intros; eapply full_matrix_correct; eassumption. Qed.
 Print Assumptions dijkstra_fib_correct.
+
+(* the Fibonacci configuration with the heap NOT abstracted: the queue is the executable pointer-order
+   model of fibonacci_heap.hpp of property C16 (consolidate, cascading cuts, A[Dn] with the constructor's Dn);
+   every heap call is discharged by C16's refinement theorems.  No `pick`: the tie-breaking is the heap's own. *)
+Theorem dijkstra_fib_concrete_correct : forall nbrs w N K,
+    wf_graph nbrs N K -> nonneg_w nbrs w -> (0 < N)%nat ->
+    full_matrix_fibc nbrs w N = DOk (sp_matrix nbrs w N).
+Proof. exact full_matrix_fibc_correct. Qed.
+Print Assumptions dijkstra_fib_concrete_correct.
+
+Theorem landmark_fib_concrete_correct : forall nbrs w N K lm,
+    wf_graph nbrs N K -> nonneg_w nbrs w -> (0 < N)%nat -> Forall (fun v => (v < N)%nat) lm ->
+    landmark_matrix_fibc nbrs w N lm = DOk (sp_landmarks nbrs w N lm).
+Proof. exact landmark_matrix_fibc_correct. Qed.
+Print Assumptions landmark_fib_concrete_correct.
+
+(* the instrumented copy (which also lists the calls of the distance callback) computes the same row *)
+Theorem fib_concrete_trace_erasure : forall nbrs w N K src fidx,
+    fst (row_fibc_tr nbrs w N K src fidx) = row_fibc nbrs w N K src fidx.
+Proof. exact row_fibc_tr_erase. Qed.
+Print Assumptions fib_concrete_trace_erasure.
 
 Theorem backends_equal : forall nbrs w N K pick1 pick2,
     wf_graph nbrs N K -> nonneg_w nbrs w -> pick_ok pick1 -> pick_ok pick2 -> (0 < N)%nat ->
@@ -68,8 +91,10 @@ Theorem dijkstra_finite_iff_reach : forall nbrs w N K k v,
 Proof. intros; eapply sp_finite_iff_reach; eassumption. Qed.
 Print Assumptions dijkstra_finite_iff_reach.
 
-(* ---- second overload (landmarks) ---- *)
-(* shipped, priority-queue build: correct (f[] is write-only there) *)
+(* ---- second overload (landmarks) ----
+   `landmark_matrix`       = the source BEFORE commit c3eaff6 (fix F4): `f[k] = true`
+   `landmark_matrix_fixed` = the CURRENT source:                         `f[landmarks[k]] = true` *)
+(* old code, priority-queue build: correct (f[] is write-only there) *)
 Theorem landmark_pq_correct : forall nbrs w N K pick lm,
     wf_graph nbrs N K -> nonneg_w nbrs w -> pick_ok pick -> (0 < N)%nat ->
     Forall (fun v => (v < N)%nat) lm -> (length lm <= N)%nat ->
@@ -77,7 +102,7 @@ Theorem landmark_pq_correct : forall nbrs w N K pick lm,
 Proof. intros; eapply landmark_matrix_pq_correct; eassumption. Qed.
 Print Assumptions landmark_pq_correct.
 
-(* shipped, Fibonacci build: `f[k] = true` flags vertex k instead of landmarks[k];
+(* old code, Fibonacci build (regression theorem): `f[k] = true` flags vertex k instead of landmarks[k];
    vertex k is then never inserted and nothing behind it is reached (defect F4) *)
 Theorem landmark_fib_refuted :
     exists nbrs w N K lm,
@@ -89,7 +114,8 @@ Theorem landmark_fib_refuted :
 Proof. exact landmark_fib_wrong. Qed.
 Print Assumptions landmark_fib_refuted.
 
-(* after fixes/F04_landmark_frontier_flag.patch (`f[landmarks[k]] = true`): both builds *)
+(* the current source (fixes/F04_landmark_frontier_flag.patch, `f[landmarks[k]] = true`): both builds;
+   every landmark row equals the corresponding row of the full matrix *)
 Theorem landmark_row : forall fl nbrs w N K pick lm,
     wf_graph nbrs N K -> nonneg_w nbrs w -> pick_ok pick -> (0 < N)%nat ->
     Forall (fun v => (v < N)%nat) lm ->
@@ -104,8 +130,30 @@ Proof.
 Qed.
 Print Assumptions landmark_row.
 
-(* ---- Isomap = classical MDS of the geodesics ---- *)
-(* shipped: centerMatrix subtracts column means along both axes; with asymmetric
+(* ---- every OpenMP schedule: any team size, any assignment of rows to threads, any order, whatever the
+   previous row left in the thread's private s[], f[] and whatever the uninitialised matrix held ---- *)
+Theorem threads_independent_full : forall fl nbrs w N K pick garbage sched inits,
+    wf_graph nbrs N K -> nonneg_w nbrs w -> pick_ok pick ->
+    (forall k, length (garbage k) = N) ->
+    length inits = length sched -> Forall (tstate_ok N) inits ->
+    Permutation (concat sched) (seq 0 N) ->
+    full_matrix_sched fl nbrs w pick N K garbage sched inits = DOk (sp_matrix nbrs w N).
+Proof. exact full_matrix_any_schedule. Qed.
+Print Assumptions threads_independent_full.
+
+Theorem threads_independent_landmark : forall fl nbrs w N K pick lm garbage sched inits,
+    wf_graph nbrs N K -> nonneg_w nbrs w -> pick_ok pick ->
+    Forall (fun v => (v < N)%nat) lm ->
+    (forall k, length (garbage k) = N) ->
+    length inits = length sched -> Forall (tstate_ok N) inits ->
+    Permutation (concat sched) (seq 0 (length lm)) ->
+    landmark_matrix_sched fl nbrs w pick N K lm garbage sched inits = DOk (sp_landmarks nbrs w N lm).
+Proof. exact landmark_matrix_any_schedule. Qed.
+Print Assumptions threads_independent_landmark.
+
+(* ---- Isomap = classical MDS of the geodesics ----
+   `iso_shipped` = embed() BEFORE commit 1e09b35 (fix F23), `iso_fixed` = the CURRENT embed() *)
+(* old code (regression theorem): centerMatrix subtracts column means along both axes; with asymmetric
    geodesics the solver does not see -1/2 J S J (defect F23) *)
 Theorem isomap_center_refuted :
     exists (n : nat) (G : mat Qc) (i j : nat),
@@ -127,17 +175,60 @@ Theorem isomap_shipped_gap : forall n (G : mat Qc) i j,
 Proof. exact iso_shipped_seen_Qc. Qed.
 Print Assumptions isomap_shipped_gap.
 
-(* after fixes/F23_isomap_symmetrise.patch *)
+(* the current source (fixes/F23_isomap_symmetrize.patch): the matrix handed to the eigensolver IS
+   -1/2 J S J, S = (G.^2 + (G.^2)^T)/2, for every geodesic table G (symmetric or not) *)
 Theorem isomap_is_mds : forall n (G : mat Qc), n <> 0%nat ->
     meq n n (iso_fixed n G) (mds_ref n G).
 Proof. exact iso_fixed_is_mds_Qc. Qed.
 Print Assumptions isomap_is_mds.
 
-(* the shipped code is already right on symmetric geodesics (mutual neighbourhoods) *)
+(* the old code was already right on symmetric geodesics (mutual neighbourhoods) *)
 Theorem isomap_shipped_ok_if_symmetric : forall n (G : mat Qc), n <> 0%nat ->
     msym n G -> meq n n (iso_shipped n G) (mds_ref n G).
 Proof. exact iso_shipped_ok_if_symmetric_Qc. Qed.
 Print Assumptions isomap_shipped_ok_if_symmetric.
+
+(* the memoised list-level functions that the correspondence run extracts and executes are the tables of
+   the functions above; the extracted decision procedure is sound and complete *)
+Theorem isomap_exec_is_mds : forall n t, n <> 0%nat -> iso_current_exec n t = mds_ref_exec n t.
+Proof. exact iso_current_exec_is_mds. Qed.
+Print Assumptions isomap_exec_is_mds.
+
+Theorem isomap_exec_faithful : forall n t,
+    iso_current_exec n t = mtab n n (iso_fixed n (geo_of_table t)) /\
+    iso_old_exec n t = mtab n n (iso_shipped n (geo_of_table t)) /\
+    mds_ref_exec n t = mtab n n (mds_ref n (geo_of_table t)).
+Proof.
+  intros n t. split; [apply iso_current_exec_ok | split; [apply iso_old_exec_ok | apply mds_ref_exec_ok]].
+Qed.
+Print Assumptions isomap_exec_faithful.
+
+Theorem check_mds_decides : forall n t obs,
+    check_mds n t obs = true <-> obs_of obs = mtab n n (mds_ref n (geo_of_table t)).
+Proof. exact check_mds_iff. Qed.
+Print Assumptions check_mds_decides.
+
+Theorem isomap_old_exec_refuted : iso_old_exec 3 f23_table <> mds_ref_exec 3 f23_table.
+Proof. exact iso_old_exec_refuted. Qed.
+Print Assumptions isomap_old_exec_refuted.
+
+(* last statements of embed(): columns scaled by sqrt(lambda).  Eigensolver and sqrt are oracles (their
+   contracts are the hypotheses; validated at run time).  PARTIAL: not proved that the returned eigenpairs
+   are the d largest (selection: property C05) nor that this choice is optimal (Eckart-Young). *)
+Theorem isomap_embedding_partial : forall (n d : nat) (G V : mat Qc) (lam s : vec Qc),
+    n <> 0%nat ->
+    (forall i j, (i < n)%nat -> (j < d)%nat ->
+        sumn n (fun t => iso_fixed n G i t * V t j) = lam j * V i j)%F ->
+    (forall a b, (a < d)%nat -> (b < d)%nat -> sumn n (fun t => V t a * V t b) = delta a b)%F ->
+    (forall j, (j < d)%nat -> s j * s j = lam j)%F ->
+    let Y := scale_cols V s in
+    (forall i j, (i < n)%nat -> (j < d)%nat ->
+        sumn n (fun t => mds_ref n G i t * Y t j) = lam j * Y i j)%F /\
+    (forall a b, (a < d)%nat -> (b < d)%nat ->
+        sumn n (fun t => Y t a * Y t b) = if Nat.eqb a b then lam a else 0)%F /\
+    (forall i k, sumn d (fun j => Y i j * Y k j) = sumn d (fun j => lam j * (V i j * V k j)))%F.
+Proof. exact isomap_embedding_mds. Qed.
+Print Assumptions isomap_embedding_partial.
 
 (* ---- non-vacuity: the hypotheses are satisfiable together ---- *)
 Example hypotheses_satisfiable :
@@ -152,3 +243,24 @@ Example isomap_hypotheses_satisfiable :
 Proof.
   split; [discriminate|]. intros i j _ _. f_equal. apply Z.add_comm.
 Qed.
+
+(* a schedule with two threads, rows handed out of order, garbage in every array *)
+Example schedule_hypotheses_satisfiable :
+    full_matrix_sched FIB f4_nbrs f4_w pick_first_min 3 1
+                      (fun k => [Some 7; None; Some (-1)])
+                      [[2; 0]; [1]]%nat
+                      [mkT [true; true; false] [false; true; true] []; mkT [true; true; true] [true; true; true] []]
+    = DOk (sp_matrix f4_nbrs f4_w 3).
+Proof. exact schedule_example. Qed.
+
+(* the oracle contract of isomap_embedding_partial holds for a concrete eigenpair (lambda = 4) *)
+Example embedding_hypotheses_satisfiable :
+    let n := 4%nat in let d := 1%nat in
+    let lam : vec Qc := fun _ => qz 4 in let s : vec Qc := fun _ => qz 2 in
+      n <> 0%nat /\
+      (forall i j, (i < n)%nat -> (j < d)%nat ->
+          sumn n (fun t => iso_fixed n emb_G i t * emb_V t j) = lam j * emb_V i j)%F /\
+      (forall a b, (a < d)%nat -> (b < d)%nat -> sumn n (fun t => emb_V t a * emb_V t b) = delta a b)%F /\
+      (forall j, (j < d)%nat -> s j * s j = lam j)%F /\
+      scale_cols emb_V s 1%nat 0%nat = qz (-1).
+Proof. exact isomap_embedding_contract_satisfiable. Qed.
